@@ -145,6 +145,27 @@ def sweep(fx, R):
                            ', '.join(sorted({l_[0] for l_ in lost})), (lost[0][1] or ['default-initialised'])[0][:80]), fx.rel(g['loc']), 'E-STATE')
         else:
             R.holds('H3', inst, 'every member the read functions use (%s) is taken from the source object' % ', '.join(sorted(read)), fx.rel(g['loc']), 'E-STATE')
+    # ---- H6: configuration held by reference ---------------------------------------------------------------------------------------
+    # a data member of reference type bound, in a constructor, to a `const T &` parameter: the call site reads as passing a value (temporaries
+    # bind to it), but the object keeps using the caller's object - whatever it holds later, or nothing at all once it is gone
+    for cls in classes:
+        rec = fx.records.get(cls) or {}
+        refs = [fl_ for fl_ in rec.get('fields', []) if (fl_.get('t') or {}).get('ref')]
+        for fl_ in refs:
+            for g in fx.functions.values():
+                if not (g.get('ctor') and g.get('cls') == cls and not g.get('copyctor')):
+                    continue
+                for i in g.get('inits', []):
+                    if i.get('field') != fl_['name'] or i.get('e') is None:
+                        continue
+                    e0 = strip_casts(i['e'])
+                    if e0.get('k') == 'Ref' and e0.get('rk') == 'param':
+                        p_ = next((p for p in g.get('params', []) if p['id'] == e0.get('id')), None)
+                        if p_ is not None and p_['t'].get('ref') and p_['t'].get('const'):
+                            R.violated('H6', '%s:reference-member:%s' % (cls, fl_['name']), 'the member `%s` is a reference bound to the constructor parameter `%s` (%s): the object does not own that value. A '
+                                       'caller that passes a temporary leaves it dangling at once, and a caller that re-uses or re-assigns its variable changes the behaviour of the object built from it - '
+                                       'the results then are not those of the value the object was constructed with, which is what the property quantifies over' % (
+                                           fl_['name'], p_['name'], p_['t'].get('s')), fx.rel(g['loc']), 'E-STATE')
     # ---- H4: caches kept in mutable members ---------------------------------------------------------------------------------
     # `if (<cache member is empty>) cache = f(fields of the same object)`: the cache is validated by presence only.  When a field it was computed
     # from can change afterwards (public data member, or a member some non-constructor method writes), the stale cache is used for the new value.
